@@ -155,6 +155,18 @@ ShadowStoreHit(prog, fin) ==
     /\ fin.ev[k].i + 2 <= Len(prog) /\ prog[fin.ev[k].i + 2].op \in StoreOps
     /\ \E h \in 1 .. (k - 1) : IsLoadAt(prog, fin, h)
 
+(* F03e (MVP-6.0 .. 8, >= 2 units): an instruction fetched after a taken branch or jump *)
+(* is executed speculatively; when it raises an error (division by zero, a branch to   *)
+(* an undefined label) Run returns that error although the instruction is never        *)
+(* reached.  Masks: a taken control transfer followed in the text, within 8            *)
+(* instructions, by a div/rem or by a transfer to an undefined label.                  *)
+ShadowTrap(prog, fin) ==
+  \E k \in 1 .. N(fin) :
+    /\ fin.ev[k].t
+    /\ \E d \in 1 .. 8 : /\ fin.ev[k].i + 1 + d <= Len(prog)
+                         /\ LET x == prog[fin.ev[k].i + 1 + d] IN
+                            x.op \in {"div", "rem"} \/ (x.op \in CondOps \cup {"j", "jal"} /\ x.tgt = -1)
+
 Tags(prog, fin) ==
   (IF RetAfterStoreMiss(prog, fin) THEN {"ret_after_store_miss"} ELSE {})
   \cup (IF RetDropsInflight(prog, fin) THEN {"ret_drops_inflight"} ELSE {})
@@ -168,5 +180,6 @@ Tags(prog, fin) ==
   \cup (IF ShadowOfSlowBranch(prog, fin) THEN {"shadow_of_slow_branch"} ELSE {})
   \cup (IF LaterFlushAfterStoreMiss(prog, fin) THEN {"later_flush_after_store_miss"} ELSE {})
   \cup (IF ShadowStoreHit(prog, fin) THEN {"shadow_store_hit"} ELSE {})
+  \cup (IF ShadowTrap(prog, fin) THEN {"shadow_trap"} ELSE {})
   \cup (IF N(fin) > 150 /\ L3Overflow(prog, fin) THEN {"l3_overflow_with_stores"} ELSE {})
 =======================================================================
